@@ -416,11 +416,18 @@ def check_main(pid, tier, seed):
         f"{pid} {tier}: {ev} runs, {len(sigs)} distinct interleavings, {len(new_violations)} new violation(s), "
         f"{len(known_hit)} known, {wall_s:.1f}s wall"
     )
+    ab = sum(a["aborted_foreign"] for a in aggs)
+    if new_violations:
+        # a violation that reproduced in-process and has its replay file stands on its own; what else went wrong is noted
+        for h in harness_errors[:10]:
+            print("HARNESS-NOTE:", h, file=sys.stderr)
+        if ev and ab / ev > 0.02:
+            print(f"HARNESS-NOTE: {ab} of {ev} runs also raised exceptions outside the property's rules", file=sys.stderr)
+        return 1
     if harness_errors:
         for h in harness_errors[:10]:
             print("HARNESS-ERROR:", h, file=sys.stderr)
         return 2
-    ab = sum(a["aborted_foreign"] for a in aggs)
     if ev and ab / ev > 0.02:
         print(f"HARNESS-ERROR: {ab} of {ev} runs aborted by foreign findings", file=sys.stderr)
         return 2
